@@ -259,7 +259,7 @@ def run(R, ctx):
         "Static rules on the line-keeping mechanism: coverage of shift_token_line over every token slot of the AST type graph, "
         "the Position tables of replace_with_content/shift_token_line, where and by how much inserted lines are compensated, and "
         "exactness/monotonicity of the token-based generator's line counter. Decides the mechanism's wiring for all inputs; does not "
-        "decide that arbitrary rule pipelines never emit a token whose recorded line is already passed."
+        "decide that arbitrary rule pipelines never emit a token whose recorded line is already passed. Decision / transfer functions among these are decided by finite-domain evaluation of their typed tree (sa/peval.py): every point of a small abstract domain is evaluated and compared with the reference; nothing is sampled and no program input exists."
     )
     R.assumptions += ["coverage per (ADT, slot), not path-sensitive", "std String methods are recognised by name"]
     walkers.walker_cover(R, ctx, "C04.shift-cover", "shift_token_line")
